@@ -99,14 +99,14 @@ func initImmutableCollection() {
 		"drop",
 		func(vm *Thread, args []value.Value) (returnVal value.Value, err value.Value) {
 			self := args[0]
-			count := args[1].AsInt()
+			count := iterableCount(args[1])
 
 			if count < 0 {
 				return value.Undefined, value.Ref(
 					value.Errorf(
 						value.OutOfRangeErrorClass,
-						"tried to drop a negative amount of values `%d` from an iterable",
-						count,
+						"tried to drop a negative amount of values `%s` from an iterable",
+						args[1].Inspect(),
 					),
 				)
 			}
@@ -173,14 +173,14 @@ func initImmutableCollection() {
 		"take",
 		func(vm *Thread, args []value.Value) (returnVal value.Value, err value.Value) {
 			self := args[0]
-			count := args[1].AsInt()
+			count := iterableCount(args[1])
 
 			if count < 0 {
 				return value.Undefined, value.Ref(
 					value.Errorf(
 						value.OutOfRangeErrorClass,
-						"tried to take a negative amount of values `%d` from an iterable",
-						count,
+						"tried to take a negative amount of values `%s` from an iterable",
+						args[1].Inspect(),
 					),
 				)
 			}
